@@ -1249,6 +1249,17 @@ impl EvCell {
                 }
             }
         }
+        if self.oracles.c07 && self.cfg.auth == Auth::ProtocolCheck {
+            // the notification goes to the mismatching client only
+            for c in 0..self.clients() {
+                if !self.cfg.mismatch.contains(&c) && x.sim.wire.iter().any(|w| w.client == c && w.channel == 2) {
+                    return Err(self.v(
+                        "mismatch-notified-wrong-client",
+                        format!("c{c} was built with the server's protocol but a ProtocolMismatch notification was sent to it"),
+                    ));
+                }
+            }
+        }
         if (self.oracles.c07 || self.oracles.c09) && self.cfg.auth != Auth::Custom {
             // A connected client with the same protocol is authorized once its handshake went through.
             for c in 0..self.clients() {
